@@ -648,7 +648,7 @@ class Peer:
         assert self.recv_timer is not None
 
         if self._teardown:
-            raise Notify(6, 3)
+            raise Notify(6, self._teardown)
 
         # Initialize session state
         self.neighbor.rib.incoming.clear()
@@ -723,6 +723,10 @@ class Peer:
                 except asyncio.TimeoutError:
                     message = _NOP
                     await asyncio.sleep(0)
+
+                # RFC 6608: an OPEN is unexpected once the session is established
+                if message.TYPE == Open.TYPE:
+                    raise Notify(5, 3, 'OPEN message received in the ESTABLISHED state')
 
                 # Keepalive handling
                 self.recv_timer.check_ka(message)
